@@ -306,8 +306,10 @@ func vpC04ReadRequest(br *bufio.Reader) (*vpC04Req, error) {
 // vpC04Conn is the client-side end handed to fasthttp.
 type vpC04Conn struct {
 	net.Conn
-	idx    int
-	closes atomic.Int32
+	idx       int
+	closes    atomic.Int32
+	readBytes atomic.Int64 // bytes the client side has read from this connection
+	srv       *vpC04SrvConn
 	// optional hooks (C18)
 	onClose func(c *vpC04Conn, nth int32)
 	onWrite func(c *vpC04Conn)
@@ -321,6 +323,12 @@ func (c *vpC04Conn) Close() error {
 	return c.Conn.Close()
 }
 
+func (c *vpC04Conn) Read(p []byte) (int, error) {
+	n, err := c.Conn.Read(p)
+	c.readBytes.Add(int64(n))
+	return n, err
+}
+
 func (c *vpC04Conn) Write(p []byte) (int, error) {
 	if c.onWrite != nil {
 		c.onWrite(c)
@@ -329,10 +337,15 @@ func (c *vpC04Conn) Write(p []byte) (int, error) {
 }
 
 type vpC04SrvConn struct {
-	sc   net.Conn
-	cc   *vpC04Conn
-	ids  []int // request ids parsed on this connection, in order
-	busy bool  // a response is being produced (strict sequencing check)
+	sc  net.Conn
+	cc  *vpC04Conn
+	ids []int // request ids parsed on this connection, in order
+	// pending: requests parsed whose response has not been started yet; planned: response bytes
+	// the origin has committed to write so far (added before the first byte of each response).
+	// A non-pipelining client may only put a new request on the connection when pending == 0 and
+	// it has read exactly `planned` bytes.
+	pending atomic.Int32
+	planned atomic.Int64
 }
 
 // ---------------------------------------------------------------- origin
@@ -455,6 +468,7 @@ func (o *vpC04Origin) Dial(addr string) (net.Conn, error) {
 		o.wrap(c)
 	}
 	s := &vpC04SrvConn{sc: sc, cc: c}
+	c.srv = s
 	o.conns = append(o.conns, s)
 	o.wg.Add(1)
 	o.mu.Unlock()
@@ -521,11 +535,11 @@ func (o *vpC04Origin) serve(s *vpC04SrvConn, ci int) {
 			o.mu.Lock()
 			o.seen[r.ID]++
 			s.ids = append(s.ids, r.ID)
-			if o.strictSeq && s.busy {
+			if o.strictSeq && s.pending.Load() > 0 {
 				o.violations = append(o.violations,
-					fmt.Sprintf("conn%d: request id=%d arrived while the response to the previous request on this connection was still in flight (connection used by two requests)", ci, r.ID))
+					fmt.Sprintf("conn%d: request id=%d arrived while an earlier request on this connection had not been answered yet (connection used by two requests at once)", ci, r.ID))
 			}
-			s.busy = true
+			s.pending.Add(1)
 			o.mu.Unlock()
 			o.hist.add("conn%d origin got %s id=%d", ci, r.Method, r.ID)
 			reqCh <- r
@@ -542,9 +556,6 @@ func (o *vpC04Origin) serve(s *vpC04SrvConn, ci int) {
 			break
 		}
 		keep := o.respond(s, ci, r, gone)
-		o.mu.Lock()
-		s.busy = false
-		o.mu.Unlock()
 		if !keep {
 			break
 		}
@@ -577,15 +588,6 @@ func (o *vpC04Origin) respond(s *vpC04SrvConn, ci int, r *vpC04Req, gone <-chan 
 		f = p.Faults[i]
 	}
 	wire := p.Resp.wire
-	switch f.Kind {
-	case vpC04FaultStall:
-		o.hist.add("conn%d origin stalls id=%d att=%d %dms", ci, r.ID, att, f.StallMs)
-		o.wait(time.Duration(f.StallMs)*time.Millisecond, gone)
-		return false
-	case vpC04FaultCloseBefore:
-		o.hist.add("conn%d origin closes before answering id=%d att=%d", ci, r.ID, att)
-		return false
-	}
 	limit := len(wire)
 	if f.Kind == vpC04FaultCloseAt {
 		limit = f.Off
@@ -595,6 +597,19 @@ func (o *vpC04Origin) respond(s *vpC04SrvConn, ci int, r *vpC04Req, gone <-chan 
 		if limit < 1 {
 			limit = 1
 		}
+	}
+	if f.Kind == vpC04FaultNone || f.Kind == vpC04FaultCloseAt {
+		s.planned.Add(int64(limit))
+	}
+	s.pending.Add(-1)
+	switch f.Kind {
+	case vpC04FaultStall:
+		o.hist.add("conn%d origin stalls id=%d att=%d %dms", ci, r.ID, att, f.StallMs)
+		o.wait(time.Duration(f.StallMs)*time.Millisecond, gone)
+		return false
+	case vpC04FaultCloseBefore:
+		o.hist.add("conn%d origin closes before answering id=%d att=%d", ci, r.ID, att)
+		return false
 	}
 	pos := 0
 	for i, end := range p.segments(&f) {
